@@ -441,7 +441,7 @@ def ir_to_llvm_declaration_assignment(
 ) -> None:
     value = ir_to_llvm_expression(self.value, builder, locals)
     target = ir_to_llvm_declaration(self.target, builder, locals)
-    match value.type, target.type:
+    match value.type, target.type.pointee:
         case (llvm.IntType(), llvm.DoubleType()):
             value = builder.sitofp(value, llvm_float_type)
         case _:
